@@ -33,6 +33,11 @@ const ARGS: &[(&str, Cls)] = &[
     ("0.0001", Cls::Pos),
     ("2^40", Cls::Pos),
     ("ABS(-3)", Cls::Pos),
+    (".00000000000000000001", Cls::Pos),
+    (".1+.2-.3", Cls::Pos),
+    ("1-.9999999999999999", Cls::Pos),
+    ("2^-1000", Cls::Pos),
+    ("99999999999999999999", Cls::Pos),
     ("0", Cls::Zero),
     ("-0", Cls::Zero),
     ("0*5", Cls::Zero),
@@ -40,6 +45,8 @@ const ARGS: &[(&str, Cls)] = &[
     ("-1", Cls::Neg),
     ("-0.001", Cls::Neg),
     ("1-2", Cls::Neg),
+    ("-.00000000000000000001", Cls::Neg),
+    (".3-.1-.2", Cls::Neg),
 ];
 
 const STMTS: &[&str] = &["C = 5", "PRINT 1+1", "V(3) = 2", "Q$ = \"RND\"", "REM RND(1)", "PRINT \"RND(1)\""];
